@@ -41,6 +41,7 @@ V2_VALUES = [['num', 1.0], ['str', 's'], ['marker'], ['ref', 'r', None], ['qty',
 PATHS = ['ctor_meta', 'ctor_colmeta', 'meta_set', 'meta_append', 'meta_extend', 'colmeta_set', 'colmeta_add',
          'append', 'insert', 'extend', 'iadd', 'setitem']
 BYPASS = ['bypass_row', 'bypass_col']
+DERIVE = ['derive_slice', 'derive_filter']
 
 
 def refuses(label):
@@ -90,6 +91,10 @@ def build(case):
 def apply_op(g, op):
     import hszinc
     kind = op[0]
+    if kind == 'derive_slice':
+        return g[:]
+    if kind == 'derive_filter':
+        return g.filter('not zzNoSuchTag')
     val = model.from_model(op[-1]) if kind not in ('append', 'insert', 'extend', 'iadd', 'setitem') else None
     row = dict((c, model.from_model(x)) for c, x in op[-1]) if val is None else None
     if kind == 'meta_set':
@@ -125,6 +130,8 @@ def apply_op(g, op):
 
 
 def op_value_models(op):
+    if op[0] in DERIVE:
+        return []
     if op[0] in ('append', 'insert', 'extend', 'iadd', 'setitem'):
         return [x for _, x in op[-1]]
     return [op[-1]]
@@ -237,6 +244,7 @@ def check_history(case, excl=frozenset()):
     if v is None and ctor_v3 and not ver_ge3(str(g.version)):
         raise Violation('no-auto-upgrade', dict(case, step='ctor'), 'unlabelled grid holds 3.0-only data but reports %s' % g.version, ('ctor',))
     decisions = {}
+    sources = []
     decide_writers_readers(g, case, 'ctor', excl, decisions)
     if grid_decision is not None and decisions and decisions.get('zinc-writer') != grid_decision:
         raise Violation('decisions-differ', dict(case, step='ctor'), 'grid accepted=%r but wire decisions %r' % (grid_decision, decisions))
@@ -247,14 +255,35 @@ def check_history(case, excl=frozenset()):
         used_v3 = used_v3 or v3
         bypass = op[0] in BYPASS
         try:
-            apply_op(g, op)
+            derived = apply_op(g, op)
             outcome = 'ok'
         except ValueError:
             outcome = 'ValueError'
         except Exception as e:  # noqa
             raise Violation('mutator-raises', dict(case, step=step), '%r raised %s' % (op[0], describe_exc(e)), (op[0],))
+        if op[0] in DERIVE and outcome == 'ok':
+            # a grid derived by slicing/filtering carries the version of its source as an explicit label; the
+            # history continues on the derived grid, the source must not change any more
+            source, source_model = g, model.grid_to_model(g)
+            g = derived
+            v = str(g.version)
+            ref = refuses(v)
+            if ref is None and 'ver.between-2-and-3' in excl:
+                return used_v3
+            sources.append((source, source_model))
         after = model.grid_to_model(g)
+        for sg, sm in sources:
+            # (rows are shared between a grid and its slices by design; the label of the source must not move)
+            if str(sg.version) != sm[1]:
+                raise Violation('source-grid-relabelled', dict(case, step=step),
+                                'an operation on a derived grid changed the version of its source from %s to %s' % (sm[1], sg.version), (op[0],))
         grid_decision = None
+        if op[0] in DERIVE and outcome != 'ok':
+            # deriving re-validates the content: refusing is fine iff the source held 3.0-only data (put there through a
+            # bypass path) under a label that refuses it
+            if content_has_v3(before) and (refuses(before[1]) is not False):
+                return used_v3
+            raise Violation('grid-refuses-legal-value', dict(case, step=step), '%r raised ValueError although the grid is consistent' % op[0], (op[0],))
         if bypass or not v3:
             if outcome != 'ok':
                 raise Violation('grid-refuses-legal-value', dict(case, step=step), '%r raised ValueError for a 2.0-legal value' % op[0], (op[0],))
@@ -271,11 +300,11 @@ def check_history(case, excl=frozenset()):
                                 'grid labelled %s accepted a 3.0-only value via %s' % (v, op[0]), (op[0],))
             if ref is False and outcome != 'ok':
                 raise Violation('grid-refuses-3.0-data-under-3.0-label', dict(case, step=step), 'via %s' % op[0], (op[0],))
-        if outcome != 'ok':
+        if outcome != 'ok' and op[0] not in DERIVE:
             d = model.diff(before, after)
             if d and not (op[0] == 'setitem' and len(before[4]) == 0):
                 raise Violation('refused-value-stored', dict(case, step=step), 'after the refused %s the grid changed: %s' % (op[0], d), (op[0],))
-        elif not bypass and v is not None and after[1] != before[1]:
+        elif not bypass and op[0] not in DERIVE and v is not None and after[1] != before[1]:
             raise Violation('label-changed', dict(case, step=step), 'declared version %s became %s' % (before[1], after[1]))
         decisions = {}
         decide_writers_readers(g, case, step, excl, decisions)
@@ -287,6 +316,39 @@ def check_history(case, excl=frozenset()):
 
 def ver_ge3(s):
     return zinc_ref.ver_ge3(s)
+
+
+def nested_old_label_documents():
+    """(text or object, format): a 3.0 document whose nested grid is labelled 2.0 but holds 3.0-only data"""
+    for kind in sorted(V3_VALUES):
+        if kind == 'grid':
+            continue
+        inner = ['grid', '2.0', [], [['x', []]], [[['x', V3_VALUES[kind]]]]]
+        inner_meta = ['grid', '2.0', [['m', V3_VALUES[kind]]], [['x', []]], []]
+        for bad in (inner, inner_meta):
+            for outer in (['grid', '3.0', [], [['a', []]], [[['a', bad]]]], ['grid', '3.0', [['gm', bad]], [['a', []]], []],
+                          ['grid', '3.0', [], [['a', []]], [[['a', ['list', [bad]]]]]]):
+                yield kind, outer
+
+
+def check_nested_old_label(kind, outer):
+    import hszinc
+    from hszinc.zincparser import ZincParseException
+    case = {'nested_old_label': outer}
+    ztxt, _ = zinc_ref.write_document([outer])
+    jobj, _ = json_ref.write_document([outer])
+    try:
+        hszinc.parse(ztxt, mode=hszinc.MODE_ZINC)
+        raise Violation('reader-accepts-3.0-data-under-old-label', dict(case, text=ztxt),
+                        'ZINC reader accepted a nested grid labelled 2.0 that holds %s' % kind, ('zinc', 'nested'))
+    except ZincParseException:
+        pass
+    try:
+        hszinc.parse(json.dumps(jobj), mode=hszinc.MODE_JSON)
+        raise Violation('reader-accepts-3.0-data-under-old-label', dict(case, text=json.dumps(jobj)),
+                        'JSON reader accepted a nested grid labelled 2.0 that holds %s' % kind, ('json', 'nested'))
+    except ValueError:
+        pass
 
 
 def single_op_cases():
@@ -326,6 +388,8 @@ def add_op(case, path, val):
         case['ops'].append([path, 'a', val])
     elif path == 'bypass_col':
         case['ops'].append([path, 'bk', val])
+    elif path in DERIVE:
+        case['ops'].append([path])
     else:
         raise ValueError(path)
 
@@ -343,7 +407,7 @@ def plan(tier, seed, excl):
 def alphabet():
     vals = [V3_VALUES['na'], V3_VALUES['xstr'], V3_NESTED['grid'], V2_VALUES[0]]
     paths = ['ctor_meta', 'meta_set', 'colmeta_set', 'append', 'setitem', 'iadd', 'bypass_row', 'bypass_col']
-    return [(p, x) for p in paths for x in vals]
+    return [(p, x) for p in paths for x in vals] + [('derive_slice', None), ('derive_filter', None)]
 
 
 def run(part, args, env):
@@ -368,6 +432,13 @@ def run(part, args, env):
                 nt += bool(r)
                 if n % 151 == 1:
                     acc.sample(case)
+        for kind, outer in nested_old_label_documents():
+            n += 1
+            nt += 1
+            try:
+                check_nested_old_label(kind, outer)
+            except Violation as v:
+                acc.violation(v)
         acc.bulk(n, nt, labels=('single-op',))
         acc.exhaustive['label x entry path x 3.0-kind x {direct, nested} (+ 2.0-legal controls)'] = True
     elif part in ('pairs', 'triples'):
@@ -400,7 +471,7 @@ def run(part, args, env):
         # Bin is not generated: its spelling differs between 2.0 and 3.0 and which one a label such as 2.5 uses
         # is not defined by the property (C10 is about the 3.0-only kinds)
         val = val.filter(lambda m: not any(k == 'bin' for _, k in model.kinds(m)))
-        step = st.tuples(st.sampled_from(PATHS + BYPASS), val)
+        step = st.tuples(st.sampled_from(PATHS + BYPASS), val) | st.sampled_from(DERIVE).map(lambda d: (d, None))
         strat = st.tuples(st.sampled_from(VERSIONS), st.lists(step, min_size=1, max_size=6))
 
         def body(t):
@@ -418,6 +489,8 @@ def run(part, args, env):
 
 
 def replay(stage, case):
+    if 'nested_old_label' in case:
+        return check_nested_old_label('3.0-only data', case['nested_old_label'])
     case = dict(case)
     for k in ('step', 'content', 'text'):
         case.pop(k, None)
